@@ -301,3 +301,18 @@ Proof.
   intros ls H. cbn [bad_label_sets In] in H.
   repeat (destruct H as [<-|H]; [vm_compute; reflexivity|]). contradiction.
 Qed.
+
+(* the guard of the partial round trip is met by label sets with quotes, backslashes and the
+   JSON-escapable control characters *)
+Definition ex_safe_labels : list label :=
+  [("q"%string, append "say " (String dq (append "hi" (String dq (append " " (String bs (append " there" (String (chr 10) (String (chr 9) EmptyString)))))))));
+   ("env"%string, "prod"%string)].
+Example roundtrip_guard_satisfiable :
+  labels_safe ex_safe_labels = true /\ json_decode (encode_labels (isprint_tbl []) ex_safe_labels) = Some ex_safe_labels.
+Proof. split; vm_compute; reflexivity. Qed.
+
+(* fingerprint_protocol_independent: an instance with two different wire orders and protocols *)
+Example series_fp_instance :
+  series_fp (tbl_ch64 []) hash128to64 fin24 LokiJsonStream 0 [("b.x"%string, "1"%string); ("a"%string, "2"%string)] =
+  series_fp (tbl_ch64 []) hash128to64 fin24 PromRemoteWrite 0 [("a"%string, "2"%string); ("b.x"%string, "1"%string)].
+Proof. apply series_fp_independent. apply perm_swap. Qed.
